@@ -131,6 +131,22 @@ static TCircuit genNoCapacity(SplitMix &g) {
   return t;
 }
 
+// stream 9: no fixed cell at all, the whole circuit translated far from the origin (finding F30: the first lower bound of such a circuit
+// sits at 0 and the penalty anchors are strength / distance): offsets 2^16 .. the far end of |v| <= 2^22
+static TCircuit genFarNoFixed(SplitMix &g) {
+  GenOpts o; o.nets = true; o.maxCells = 14; TCircuit t = genCircuit(g, o); ensureDomain(t);
+  long long minX = LLONG_MAX, maxX = LLONG_MIN, minY = LLONG_MAX, maxY = LLONG_MIN;
+  for (auto &r : t.rows) { minX = std::min(minX, r[0]); maxX = std::max(maxX, r[1]); minY = std::min(minY, r[2]); maxY = std::max(maxY, r[3]); }
+  for (auto &c : t.cells) { c[6] = 0; c[0] = std::min(std::max(c[0], minX - 50), maxX + 50); c[1] = std::min(std::max(c[1], minY - 50), maxY + 50); }
+  static const long long offs[] = {1LL << 16, 1LL << 20, 1LL << 21, 3LL << 20, 1LL << 22};
+  long long ox = offs[g.uni(0, 4)], oy = g.coin(50) ? ox : offs[g.uni(0, 4)];
+  if (ox == (1LL << 22)) ox = (1LL << 22) - (maxX + 200) - g.uni(0, 40);
+  if (oy == (1LL << 22)) oy = (1LL << 22) - (maxY + 200) - g.uni(0, 40);
+  for (auto &r : t.rows) { r[0] += ox; r[1] += ox; r[2] += oy; r[3] += oy; }
+  for (auto &c : t.cells) { c[0] += ox; c[1] += oy; }
+  return t;
+}
+
 // stream 7: after legalization the detailed placer is left with NO free row segment, or with exactly ONE.  The rows come in bands of
 // k = 2..3 rows of equal x-extent; every band is tiled exactly by macros k rows high.  kind 0: every macro movable (the Tetris pass has to
 // put them where they are: exact fit), no standard cell: every row segment is an obstacle for DetailedPlacement::fromIspdCircuit;
@@ -272,6 +288,7 @@ int main(int argc, char **argv) {
       else if (stream == 6) t = genNoCapacity(g);
       else if (stream == 7) t = genNoFreeRow(g);
       else if (stream == 8) t = genWideRows(g);
+      else if (stream == 9) t = genFarNoFixed(g);
       else { GenOpts o; o.nets = true; o.maxCells = 14; t = genCircuit(g, o); ensureDomain(t); }
       int stages = g.coin(25) ? 7 : (g.coin(50) ? 2 : (g.coin(60) ? 6 : 1));
       if (stream == 7) stages = g.coin(45) ? 4 : (g.coin(60) ? 6 : 7);   // placeDetailed alone (it legalizes first), legalize + detailed, whole flow
